@@ -70,7 +70,8 @@ Record Inv2 (s : cstate) : Prop := {
   i2_ids : forall h id, In (h, id) (cs_ids s) -> id < two32;
   i2_jump : forall n m, In (n, m) (cs_jump s) -> fm_handle m < two32 /\ fm_arity m < two32;
   i2_locals : Forall (fun ls : list local => (length ls <= 255)%nat) (cs_locals s);
-  i2_ups : Forall ups_ok (cs_upvalues s)
+  i2_ups : Forall ups_ok (cs_upvalues s);
+  i2_fh : cs_fh s < two32
 }.
 
 Definition sp2 {A} (m : M A) (Q : A -> Prop) : Prop :=
@@ -99,11 +100,12 @@ Qed.
 (* operations that leave code, variables, jump table, locals and upvalues alone *)
 Definition same2 (s s' : cstate) : Prop :=
   cs_code s' = cs_code s /\ cs_next_var s' = cs_next_var s /\ cs_ids s' = cs_ids s /\
-  cs_jump s' = cs_jump s /\ cs_locals s' = cs_locals s /\ cs_upvalues s' = cs_upvalues s.
+  cs_jump s' = cs_jump s /\ cs_locals s' = cs_locals s /\ cs_upvalues s' = cs_upvalues s /\
+  cs_fh s' = cs_fh s.
 Lemma Inv2_same s s' : same2 s s' -> Inv2 s -> Inv2 s'.
 Proof.
-  intros (a & b & c & d & e & f) [H1 H2 H3 H4 H5 H6].
-  constructor; rewrite ?a, ?b, ?c, ?d, ?e, ?f; auto.
+  intros (a & b & c & d & e & f & g) [H1 H2 H3 H4 H5 H6 H7].
+  constructor; rewrite ?a, ?b, ?c, ?d, ?e, ?f, ?g; auto.
 Qed.
 Ltac same2_tac := unfold same2; cbn; repeat split; reflexivity.
 
@@ -120,7 +122,7 @@ Lemma frame2_bind {A B} (m : M A) (f : A -> M B) :
 Proof.
   intros Hm Hf s. unfold bind. specialize (Hm s). destruct (m s) as [a s1| | |]; auto.
   specialize (Hf a s1). destruct (f a s1) as [b s2| | |]; auto.
-  destruct Hm as (a1 & a2 & a3 & a4 & a5 & a6), Hf as (b1 & b2 & b3 & b4 & b5 & b6).
+  destruct Hm as (a1 & a2 & a3 & a4 & a5 & a6 & a7), Hf as (b1 & b2 & b3 & b4 & b5 & b6 & b7).
   repeat split; congruence.
 Qed.
 
@@ -142,6 +144,12 @@ Proof.
   intros s. unfold label_insert_here. destruct ((two32 <=? cs_pc s) || (h =? 0)); cbn; [exact I | same2_tac].
 Qed.
 
+Lemma frame2_label_entry h : frame2 (label_entry_here h).
+Proof.
+  intros s. unfold label_entry_here. destruct (two32 <=? cs_pc s); [exact I|].
+  destruct (h =? 0); [same2_tac|]. destruct (nm_find h (cs_labels s)); same2_tac.
+Qed.
+
 Lemma sp2_get : sp2 get Inv2.
 Proof. intros s HI. cbn. auto. Qed.
 Lemma sp2_get_pc_i32 : sp2 get_pc_i32 (fun z => (- 2147483648 <= z < 2147483648)%Z).
@@ -153,23 +161,24 @@ Proof.
 Qed.
 Lemma sp2_index_handle : sp2 index_handle fits32.
 Proof.
-  unfold index_handle. eapply sp2_bind; [apply sp2_get | intros s _].
+  unfold index_handle. eapply sp2_bind; [apply sp2_get | intros s HIs].
   eapply sp2_bind; [apply sp2_handle_from_bytes | intros sub Hs].
-  apply sp2_ret. unfold fits32 in *. apply lxor_lt32; [apply handle_from_u64_lt | exact Hs].
+  apply sp2_ret. unfold fits32 in *. apply lxor_lt32; [apply (i2_fh _ HIs) | exact Hs].
 Qed.
 Lemma sp2_card_label : sp2 card_label (fun _ => True).
 Proof.
   unfold card_label. eapply sp2_bind; [apply sp2_index_handle | intros h _].
-  apply sp2_frame, frame2_label_insert.
+  apply sp2_frame, frame2_label_entry.
 Qed.
 
 (* ---- emission ---- *)
 Lemma Inv2_push s i c pc :
   Inv2 s -> instr_ok i -> cs_code c = cs_code s -> cs_next_var c = cs_next_var s -> cs_ids c = cs_ids s ->
   cs_jump c = cs_jump s -> cs_locals c = cs_locals s -> cs_upvalues c = cs_upvalues s ->
+  cs_fh c = cs_fh s ->
   Inv2 (set_code (i :: cs_code c) pc c).
 Proof.
-  intros [H1 H2 H3 H4 H5 H6] Hi a b c0 d e f. constructor; cbn; rewrite ?a, ?b, ?c0, ?d, ?e, ?f; auto.
+  intros [H1 H2 H3 H4 H5 H6 H7] Hi a b c0 d e f g. constructor; cbn; rewrite ?a, ?b, ?c0, ?d, ?e, ?f, ?g; auto.
 Qed.
 Lemma sp2_push_raw i : instr_ok i -> sp2 (push_raw i) (fun _ => True).
 Proof. intros Hi s HI. unfold push_raw. split; auto. apply (Inv2_push s i s); auto. Qed.
@@ -181,7 +190,7 @@ Qed.
 Lemma sp2_push_raws is : Forall instr_ok is -> sp2 (push_raws is) (fun _ => True).
 Proof.
   induction 1 as [|i r Hi _ IH]; cbn [push_raws]; [apply sp2_ret_T|].
-  eapply sp2_bind; [apply sp2_push_raw, Hi | intros _ _; exact IH].
+  eapply sp2_bind; [apply sp2_push_instr, Hi | intros _ _; exact IH].
 Qed.
 
 Lemma set_jump_target_ok i z i' :
@@ -192,7 +201,7 @@ Lemma sp2_patch q : sp2 (patch_jump_here q) (fun _ => True).
 Proof.
   intros s HI. unfold patch_jump_here.
   destruct (patch_code (cs_code s) (cs_pc s) q (u32_to_i32 (cs_pc s))) as [code'|] eqn:E; [|exact I].
-  split; auto. destruct HI as [H1 H2 H3 H4 H5 H6]. constructor; cbn; auto.
+  split; auto. destruct HI as [H1 H2 H3 H4 H5 H6 H7]. constructor; cbn; auto.
   (* patch_code only rewrites one jump operand *)
   clear - H1 E. revert code' E. generalize (cs_pc s) at 1. intros cur.
   induction (cs_code s) as [|i r IH] in cur, H1 |- *; intros code' E; cbn [patch_code] in E; [discriminate|].
@@ -241,7 +250,7 @@ Proof.
   intros s HI. unfold scope_end.
   set (ds := map_hd _ (cs_depth s)). set (rlis := pop_locals _ _). set (s1 := set_scopes _ _ _ s).
   assert (HI1 : Inv2 s1).
-  { destruct HI as [H1 H2 H3 H4 H5 H6]. constructor; cbn; auto.
+  { destruct HI as [H1 H2 H3 H4 H5 H6 H7]. constructor; cbn; auto.
     destruct H5 as [|ls rest Hls Hrest]; cbn; constructor; auto.
     rewrite rev_length. subst rlis. cbn [hd].
     pose proof (pop_locals_length (rev ls) (hd 0%Z ds)). rewrite rev_length in H. lia. }
@@ -250,7 +259,7 @@ Qed.
 
 Lemma sp2_compile_begin : sp2 compile_begin (fun _ => True).
 Proof.
-  intros s [H1 H2 H3 H4 H5 H6]. cbn. split; auto. constructor; cbn; auto.
+  intros s [H1 H2 H3 H4 H5 H6 H7]. cbn. split; auto. constructor; cbn; auto.
   - constructor; auto. cbn. lia.
   - constructor; auto. split; [cbn; lia | constructor].
 Qed.
@@ -258,7 +267,7 @@ Lemma Forall_tl {A} (P : A -> Prop) l : Forall P l -> Forall P (tl l).
 Proof. intros H; destruct H; cbn; auto. Qed.
 Lemma sp2_compile_end : sp2 compile_end (fun _ => True).
 Proof.
-  intros s [H1 H2 H3 H4 H5 H6]. cbn. split; auto. constructor; cbn; auto using Forall_tl.
+  intros s [H1 H2 H3 H4 H5 H6 H7]. cbn. split; auto. constructor; cbn; auto using Forall_tl.
 Qed.
 
 Lemma sp2_add_local_unchecked n : sp2 (add_local_unchecked n) small.
@@ -266,7 +275,7 @@ Proof.
   intros s HI. unfold add_local_unchecked.
   destruct (Nat.leb_spec locals_cap (length (hd [] (cs_locals s)))) as [Hge|Hlt]; [exact I|].
   unfold locals_cap in Hlt. split; [|unfold small; lia].
-  destruct HI as [H1 H2 H3 H4 H5 H6]. constructor; cbn; auto.
+  destruct HI as [H1 H2 H3 H4 H5 H6 H7]. constructor; cbn; auto.
   destruct H5 as [|ls rest Hls Hrest]; cbn in *; constructor; auto. rewrite app_length. cbn. lia.
 Qed.
 Lemma sp2_add_local n : sp2 (add_local n) small.
@@ -343,9 +352,9 @@ Proof.
   unfold resolve_var. eapply sp2_bind; [apply sp2_frame, frame2_validate | intros _ _].
   intros s HI. destruct (rfind_index _ (hd [] (cs_locals s)) 0 None) as [i|] eqn:E.
   - split; auto. cbn. apply rfind_index_lt in E. destruct E as [E|E]; [|discriminate].
-    destruct HI as [_ _ _ _ H5 _]. destruct H5 as [|ls rest Hls _]; cbn in *; unfold small; lia.
+    destruct HI as [_ _ _ _ H5 _ _]. destruct H5 as [|ls rest Hls _]; cbn in *; unfold small; lia.
   - destruct (resolve_upvalue n (cs_locals s) (cs_upvalues s)) as [[[v ls] us]|] eqn:Er; [|exact I].
-    destruct HI as [H1 H2 H3 H4 H5 H6].
+    destruct HI as [H1 H2 H3 H4 H5 H6 H7].
     destruct (resolve_upvalue_ok _ _ _ _ _ _ H5 H6 Er) as (Hl & Hu & Hv).
     split; auto. constructor; cbn; auto.
 Qed.
@@ -353,7 +362,7 @@ Qed.
 Lemma sp2_global_id n : sp2 (global_id n) fits32.
 Proof.
   unfold global_id. eapply sp2_bind; [apply sp2_handle_from_bytes | intros h _].
-  intros s HI. destruct HI as [H1 H2 H3 H4 H5 H6].
+  intros s HI. destruct HI as [H1 H2 H3 H4 H5 H6 H7].
   destruct (nm_find h (cs_ids s)) as [id|] eqn:Ef.
   - assert (Hid : id < two32).
     { clear - Ef H3. induction (cs_ids s) as [|[k v] r IH]; cbn in Ef; [discriminate|].
@@ -640,10 +649,17 @@ Proof.
   eapply sp2_bind; [apply sp2_add_locals | intros _ _]. apply sp2_process_cards, Hc.
 Qed.
 
+Lemma sp2_set_fh_m f : fir_rng f = true -> sp2 (set_fh_m (fi_handle f)) (fun _ => True).
+Proof.
+  intros Hf s [H1 H2 H3 H4 H5 H6 H7]. apply andb_true_iff in Hf. destruct Hf as [Hh _]. apply N.ltb_lt in Hh.
+  cbn. split; auto. constructor; cbn; auto.
+Qed.
+
 Lemma sp2_compile_main f : fir_rng f = true -> sp2 (compile_main f) (fun _ => True).
 Proof.
   intros Hf. unfold compile_main.
   eapply sp2_bind; [apply sp2_frame, frame2_set_index_m | intros _ _].
+  eapply sp2_bind; [apply sp2_set_fh_m, Hf | intros _ _].
   eapply sp2_bind; [apply sp2_frame, frame2_scope_begin | intros _ _].
   eapply sp2_bind; [apply sp2_process_function, Hf | intros _ _].
   eapply sp2_bind; [apply sp2_frame, frame2_set_index_m | intros _ _].
@@ -655,6 +671,7 @@ Lemma sp2_compile_other f : fir_rng f = true -> sp2 (compile_other f) (fun _ => 
 Proof.
   intros Hf. unfold compile_other.
   eapply sp2_bind; [apply sp2_frame, frame2_set_index_m | intros _ _].
+  eapply sp2_bind; [apply sp2_set_fh_m, Hf | intros _ _].
   eapply sp2_bind; [apply sp2_frame, frame2_label_insert | intros _ _].
   eapply sp2_bind; [apply sp2_frame, frame2_scope_begin | intros _ _].
   eapply sp2_bind; [apply sp2_process_function, Hf | intros _ _].
@@ -682,8 +699,8 @@ Qed.
 Lemma sp2_add_function f : fir_rng f = true -> sp2 (add_function f) (fun _ => True).
 Proof.
   intros Hf s HI. apply andb_true_iff in Hf. destruct Hf as [Hh _]. apply N.ltb_lt in Hh.
-  unfold add_function, bind, get. destruct (sm_find (fi_name f) (cs_jump s)); cbn; [exact I|].
-  split; auto. destruct HI as [H1 H2 H3 H4 H5 H6]. constructor; cbn; auto.
+  unfold add_function, bind, get. destruct (sm_find (fi_full_name f) (cs_jump s)); cbn; [exact I|].
+  split; auto. destruct HI as [H1 H2 H3 H4 H5 H6 H7]. constructor; cbn; auto.
   intros n m Hin. apply in_sm_insert in Hin. destruct Hin as [->|Hin]; [|eauto].
   cbn. split; [exact Hh | apply N.mod_lt; discriminate].
 Qed.
@@ -708,6 +725,7 @@ Proof.
   - reflexivity.
   - constructor; [cbn; lia | constructor].
   - constructor; [split; [cbn; lia | constructor] | constructor].
+  - reflexivity.
 Qed.
 
 Lemma compile_ir_instr_ok fs d s :
